@@ -379,11 +379,12 @@ func (x *Exec) havocModifies(f *frame, ct *Contract, env *Env, pre *State) {
 				cur := h.get(f.st, k, sort)
 				if mt.target == "" || !strings.HasPrefix(sort, "(Array Int ") {
 					f.st.heap[k] = x.vc.Const("hv."+k, sort)
+					f.assume(h.nilFacts(k, f.st.heap[k]))
 					continue
 				}
 				elem := sort[len("(Array Int ") : len(sort)-1]
 				fresh := x.vc.Const("hv."+k, elem)
-				h.set(f.st, k, sort, Store(cur, mt.target, fresh))
+				h.set(f.st, k, sort, Ite(Eq(mt.target, "0"), cur, Store(cur, mt.target, fresh)))
 			}
 		}
 	}
